@@ -91,12 +91,26 @@ def bids(ctx, obs):
             ok = isinstance(t, ast.Attribute) and isinstance(a, ast.Constant) and t.attr == a.value
             obs.check(ok, 'TAB', qd, f'attribute {getattr(t, "attr", "?")!r} is parsed from the entity of the same name',
                       f'`{norm(s)}`', '', where(prog, fd, s))
+    # variable -> entity map (from `v = replace_or_inherit(base, 'ent')`) and the name of the file-name segment list (the
+    # argument of '_'.join(...)): both derived from the code, so renaming locals changes nothing
+    var_ent = {}
+    for s in fr.node.body:
+        if isinstance(s, ast.Assign) and isinstance(s.value, ast.Call) and _leaf(s.value.func) == 'replace_or_inherit' \
+                and len(s.value.args) == 2 and isinstance(s.value.args[1], ast.Constant) and isinstance(s.targets[0], ast.Name):
+            var_ent[s.targets[0].id] = s.value.args[1].value
+    seg_list = None
+    for c in ast.walk(fr.node):
+        if isinstance(c, ast.Call) and isinstance(c.func, ast.Attribute) and c.func.attr == 'join' \
+                and isinstance(c.func.value, ast.Constant) and c.func.value.value == '_' and c.args and isinstance(c.args[0], ast.Name):
+            seg_list = c.args[0].id
+    if seg_list is None:
+        raise AnalysisError("_replace: the '_'.join(<segments>) construction of the file name was not found")
     # file-name order in _replace
     segs = []
     for s in fr.node.body:
         if isinstance(s, (ast.Assign, ast.AugAssign)):
             tgt = s.targets[0] if isinstance(s, ast.Assign) else s.target
-            if isinstance(tgt, ast.Name) and tgt.id == 'fname_segs':
+            if isinstance(tgt, ast.Name) and tgt.id == seg_list:
                 for j in ast.walk(s.value):
                     if isinstance(j, ast.JoinedStr):
                         lit = ''.join(v.value for v in j.values if isinstance(v, ast.Constant))
@@ -106,20 +120,32 @@ def bids(ctx, obs):
                             segs.append('suffix.ext')
     obs.check(segs == BIDS_ORDER + ['suffix.ext'], 'TAB', qr, 'the file name is rebuilt in BIDS entity order',
               f'order {segs}, expected {BIDS_ORDER + ["suffix.ext"]}', '', where(prog, fr, fr.node))
-    # each f-string uses the variable of its own entity
+    # each f-string `ent-{v}` uses the variable that was looked up under `ent`
     for j in ast.walk(fr.node):
         if isinstance(j, ast.JoinedStr) and len(j.values) == 2 and isinstance(j.values[0], ast.Constant) \
                 and str(j.values[0].value).endswith('-') and isinstance(j.values[1], ast.FormattedValue):
             ent = j.values[0].value[:-1]
             v = j.values[1].value
-            obs.check(isinstance(v, ast.Name) and v.id == ent, 'TAB', qr, f'segment {ent}-<value> carries the value of {ent}',
-                      f'`{norm(j)}`', '', where(prog, fr, j))
-    # each local is looked up under its own name
+            if isinstance(v, ast.Name) and v.id in var_ent:
+                obs.check(var_ent[v.id] == ent, 'TAB', qr, f'segment {ent}-<value> carries the value of {ent}',
+                          f'`{norm(j)}` carries the value looked up as {var_ent[v.id]!r}', '', where(prog, fr, j))
+            else:
+                obs.unk('TAB', qr, f'segment {ent}-<value> carries the value of {ent}', f'`{norm(j)}`: value is not a looked-up entity variable',
+                        where(prog, fr, j))
+    # `{suffix}.{ext}`: the two halves are the suffix and the extension
+    for j in ast.walk(fr.node):
+        if isinstance(j, ast.JoinedStr) and len(j.values) == 3 and isinstance(j.values[1], ast.Constant) and j.values[1].value == '.' \
+                and all(isinstance(j.values[k], ast.FormattedValue) and isinstance(j.values[k].value, ast.Name) for k in (0, 2)):
+            got = [var_ent.get(j.values[k].value.id) for k in (0, 2)]
+            obs.check(got == ['suffix', 'ext'], 'TAB', qr, 'the last segment is <suffix>.<ext>', f'`{norm(j)}` is built from {got}', '',
+                      where(prog, fr, j))
+    # the guard of each optional segment tests the variable it emits
     for s in fr.node.body:
-        if isinstance(s, ast.Assign) and isinstance(s.value, ast.Call) and _leaf(s.value.func) == 'replace_or_inherit':
-            t = s.targets[0]
-            ok = isinstance(t, ast.Name) and isinstance(s.value.args[1], ast.Constant) and t.id == s.value.args[1].value
-            obs.check(ok, 'TAB', qr, f'`{norm(t)}` holds the entity of the same name', f'`{norm(s)}`', '', where(prog, fr, s))
+        if isinstance(s, ast.AugAssign) and isinstance(s.value, ast.IfExp) and isinstance(s.value.test, ast.Name):
+            used = {n.id for n in ast.walk(s.value.body) if isinstance(n, ast.Name) and n.id in var_ent}
+            if used:
+                obs.check(s.value.test.id in used, 'TAB', qr, f'segment of {sorted(var_ent[u] for u in used)} is emitted iff that entity is set',
+                          f'`{norm(s)}` is guarded by {var_ent.get(s.value.test.id, s.value.test.id)!r}', '', where(prog, fr, s))
     # find_* override sets
     want = {
         'find_meta_for': {'ext'},
@@ -144,7 +170,8 @@ def bids(ctx, obs):
                   f'{m} overrides {sorted(got) if got is not None else None}: other entities of the base file are changed / kept '
                   f'unintentionally', '', where(prog, f, calls[0]))
         base = calls[0].args[0] if calls[0].args else None
-        obs.check(isinstance(base, ast.Name) and base.id == 'base', 'TAB', q, f'{m} starts from the base file', '', '',
+        first_param = f.node.args.args[1].arg if len(f.node.args.args) > 1 else None
+        obs.check(isinstance(base, ast.Name) and base.id == first_param, 'TAB', q, f'{m} starts from the base file', '', '',
                   where(prog, f, calls[0]))
     # replace_or_inherit: replacement wins, otherwise inherit from base
     inner = [n for n in ast.walk(fr.node) if isinstance(n, ast.FunctionDef) and n.name == 'replace_or_inherit']
